@@ -115,7 +115,8 @@ def install_lookups(reg: Registry):
         D, k = o.f('_type_to_association', M), VStr(c.association_type)
         return [('no-match-so-far', FA([s], z3.Implies(z3.Select(c.done, VRef(s)) > 0, z3.Not(links(o, s, c.left_asset, c.right_asset))),
                                        [z3.Select(c.done, VRef(s))])),
-                ('old', z3.And(*[FA([l_], z3.Implies(z3.And(l_ >= 0, l_ < o.alloc), z3.Select(h.arr[n], l_) == z3.Select(o.arr[n], l_)), [z3.Select(h.arr[n], l_)])
+                ('old', z3.And(*[FA([l_], z3.Implies(z3.And(l_ >= 0, l_ < o.alloc), z3.Select(h.arr[n], l_) == z3.Select(o.arr[n], l_)),
+                                    [z3.Select(h.arr[n], l_), z3.Select(o.arr[n], l_)])
                                  for n in h.arr if not z3.eq(h.arr[n], o.arr[n])], z3.BoolVal(True))),
                 # the iterated list is the bucket of that class name, or the fresh empty default
                 ('bucket', z3.If(o.has(D, k), c.it == v_a(o.val(D, k)), z3.And(c.it >= o.alloc, c.hl.len(c.it) == 0)))]
@@ -124,7 +125,8 @@ def install_lookups(reg: Registry):
         o, h = c.old, c.h
         l_ = A('l!ae')
         return [('def', c.res == exists_link(c.old, c.self, c.association_type, c.left_asset, c.right_asset))] + [
-            ('pure.' + n, FA([l_], z3.Implies(z3.And(l_ >= 0, l_ < o.alloc), z3.Select(h.arr[n], l_) == z3.Select(o.arr[n], l_)), [z3.Select(h.arr[n], l_)]))
+            ('pure.' + n, FA([l_], z3.Implies(z3.And(l_ >= 0, l_ < o.alloc), z3.Select(h.arr[n], l_) == z3.Select(o.arr[n], l_)),
+                             [z3.Select(h.arr[n], l_), z3.Select(o.arr[n], l_)]))
             for n in h.arr if not z3.eq(h.arr[n], o.arr[n])]
 
     from .model_spec import wf_model
